@@ -43,6 +43,7 @@ pub fn to_vec(m: &Pairs) -> Vec<(Vec<u8>, Vec<u8>)> {
 pub fn sig_len(fam: FamId, units: usize, seq: u64, pairs: &Pairs) -> usize {
     match fam {
         FamId::Var | FamId::Wide => 64 + keys::var_pad(&record::content_from_fields(seq, &to_vec(pairs)), units).len(),
+        FamId::Tiny => 6,
         _ => 64,
     }
 }
@@ -165,7 +166,7 @@ fn validate_value(fam: FamId, key: &[u8], raw: &[u8], c: &mut Causes) {
         }
         b"secp256k1" | b"ed25519" => {
             let ks = if key == b"secp256k1" { Scheme::Secp } else { Scheme::Ed };
-            if ks == scheme {
+            if ks == scheme && fam.key_name() == key {
                 // the signer's own entry: overwritten by the signer's key anyway
                 if is_list || !pk_valid(ks, &payload_only) {
                     c.open_with(EK::InvalidRlp);
@@ -209,8 +210,7 @@ pub fn last_model_size() -> usize {
 }
 
 fn finish(cx: &Ctx, mut pairs: Pairs, new_seq: Option<u64>, pre_seq: u64, mut c: Causes, rets: Vec<Ret>) -> Expect {
-    let scheme = cx.fam.scheme();
-    pairs.insert(scheme.key_name().to_vec(), rlp::encode_str(cx.signer_pk));
+    pairs.insert(cx.fam.key_name().to_vec(), rlp::encode_str(cx.signer_pk));
     match pairs.get(&b"id"[..]) {
         None => c.err(EK::UnsupportedId),
         Some(v) => {
@@ -282,7 +282,7 @@ pub fn expect_op(cx: &Ctx, pre: &Snap, op: &Op, key_pks: &[Vec<u8>]) -> Expect {
     let p0 = to_map(&pre.pairs);
     let mut p = p0.clone();
     let mut c = Causes::default();
-    let kn = cx.fam.scheme().key_name().to_vec();
+    let kn = cx.fam.key_name().to_vec();
     match op {
         Op::SetSeq { seq, .. } => finish(cx, p, Some(*seq), pre.seq, c, vec![Ret::Unit]),
         Op::Insert { key, val, .. } => {
@@ -414,7 +414,7 @@ pub fn expect_op(cx: &Ctx, pre: &Snap, op: &Op, key_pks: &[Vec<u8>]) -> Expect {
 pub fn expect_build(cx: &Ctx, calls: &[BCall]) -> Expect {
     let mut p: Pairs = BTreeMap::new();
     let mut seq = 1u64;
-    let kn = cx.fam.scheme().key_name().to_vec();
+    let kn = cx.fam.key_name().to_vec();
     for call in calls {
         match call {
             BCall::Seq(s) => seq = *s,
